@@ -259,6 +259,26 @@ def gen_long_error_run(rng, n, style=None):
     return items
 
 
+def gen_long_valid_run(rng, n, p_foreign=0.03):
+    """n small valid number-carrying frames (a long-lived connection: bugs that
+    need hundreds of deliveries through one reader -- counters, cache eviction,
+    offset drift -- stay invisible in scripts of a few dozen items).  A handful
+    of distinct frames recur (verbatim repeats), the rest are fresh."""
+    pool = [gen_frame(rng, mix=(0.5, 0.3, 0.2)) for _ in range(rng.choice((1, 3, 8)))]
+    pool = [it for it in pool if len(it[1]) <= 2 * 120] or [["frame", corpus.unknown_frame(rng, 4).hex(), "unknown"]]
+    items = []
+    for _ in range(n):
+        r = rng.random()
+        if r < p_foreign:
+            items.append(gen_nmea(rng) if rng.random() < 0.5 else gen_ubx(rng))
+        elif r < 0.35:
+            it = rng.choice(pool)
+            items.append([it[0], it[1], it[2]])
+        else:
+            items.append(["frame", corpus.unknown_frame(rng, rng.choice((2, 3, 4, 6, 9, 17))).hex(), "unknown"])
+    return items
+
+
 def gen_hostile_items(rng, n):
     items = []
     p_copy = rng.choice((0.0, 0.0, 0.15, 0.4))
